@@ -30,10 +30,15 @@ META = dict(
                "reaching each node (inductive transitive closure), listed in that order; cyclic, self-referential, unknown-reference "
                "and isolated-node graphs are refused; every other graph is accepted (completeness of Kahn); the result does not "
                "depend on the iteration order of the ancestor sets.  Model tied to the code by exact comparison on all digraphs "
-               "on <= 3 (quick) / <= 4 (thorough) nodes, sampled 5-12 node graphs and all shipped model graphs, under 3 hash seeds.",
+               "on <= 3 (quick) / <= 4 (thorough) nodes, sampled 5-12 node graphs and all shipped model graphs, under 3 hash seeds.  "
+               "Extension 4: the graph from_dict builds from variable DEFINITIONS has exactly the edges 'p is a named parameter of v's function' "
+               "(keyword-only parameters with or without default; NamedInputFunction names; `then` keeps the inner function's), a non-variable "
+               "parameter is refused before any ordering, differing key sets are refused first; tied by a fail-closed ast translator and by "
+               "running from_dict on functions of every signature kind and comparing inside Coq.",
     level_note="Trusted: Coq kernel (theorems print 'Closed under the global context'); Python's sorted() on names and the harness "
                "canonicalisation name -> index; torch boolean indexing as modelled by list operations (exercised by the tie, not proved); "
-               "the key-set consistency check (variables.keys() vs direct_ancestors.keys()) is outside the model.",
+               "from_dict / get_named_parameters / NamedInputFunction.then / the key-set check are modelled (Dag/FromDict.v) starting from what "
+               "python's inspect.signature reports of a callable (inspect itself, incl. its treatment of functools.partial, is outside the model).",
     design_ref="DESIGN.md section 4 C15",
 )
 
@@ -732,12 +737,16 @@ def main(run: Run):
         run.prove("C15", OBLIGATIONS)
     run.assumptions += [
         "nodes are identified with their rank in Python's sorted() order of the names (sorted() itself is outside the model)",
-        "the key-set consistency check variables.keys() == direct_ancestors.keys() is outside the model",
+        "a python callable is abstracted by what inspect.signature reports of it (name, kind, default of each parameter); inspect.signature itself, "
+        "bound_to's optional check_arguments callback and _stratify_variables are outside the model",
     ]
     run.trusted.append("harness/dagrun.py + canonicalisation name -> index in harness/props/c15.py")
+    run.trusted.append("harness/c15_defs.py (function descriptions -> python source / Coq literals) and python's inspect.signature as the description of a plain callable")
     run.explanation = ("Theorems about Dag.DagModel.build hold for every digraph of every size (induction over Kahn's loop). The model is "
                        "tied to dag.py by running both on the same graphs and comparing inside Coq; an independent DFS oracle turns any "
-                       "disagreement that matters into a concrete failing graph.")
+                       "disagreement that matters into a concrete failing graph.  Dag.FromDict.from_dict (extension 4) covers the step before: "
+                       "from the variable definitions (function signatures, NamedInputFunction, then) to that graph, tied by an ast translator "
+                       "and by running the real from_dict on functions of every signature kind.")
     check(run, graphs)
     check_defs(run, graphs)
     return run.finish()
@@ -750,6 +759,9 @@ def replay(run: Run, path: str):
         print("replay: this file records a broken obligation / correspondence; re-running the check:", [b["name"] for b in d.get("broken", [])])
         return main(run)
     case = dict(names=inp["names"], anc=inp["anc"], mode=inp.get("mode", "ctor"))
+    for k in ("defs", "var_names"):
+        if k in inp:
+            case[k] = inp[k]
     seeds = tuple(inp.get("hash_seeds", HASH_SEEDS))
     cases = [case]
     if "other_names" in inp:
@@ -759,12 +771,13 @@ def replay(run: Run, path: str):
         print(e)
     bad = bool(errs)
     first = None
+    new_mode = case["mode"] in ("defs", "ctor_keys")
     for hs in seeds:
         if hs not in res:
             continue
         for k, o in enumerate(res[hs]):
             print(f"PYTHONHASHSEED={hs} case {k}: {json.dumps(strip(o))}")
-            sigs = judge(run, cases[k], o)
+            sigs = judge_defs(run, cases[k], o) if new_mode else judge(run, cases[k], o)
             if sigs:
                 bad = True
                 print("   property failures:", sigs)
@@ -773,14 +786,23 @@ def replay(run: Run, path: str):
             elif strip(o) != first:
                 bad = True
                 print("   differs from the first observation (non-deterministic / order dependent)")
-    orc = oracle(case["names"], case["anc"])
-    print("oracle: expected", "refusal (" + ", ".join(orc["reasons"]) + ")" if orc["reasons"] else "acceptance")
+    if not new_mode:
+        orc = oracle(case["names"], case["anc"])
+        print("oracle: expected", "refusal (" + ", ".join(orc["reasons"]) + ")" if orc["reasons"] else "acceptance")
     if res:
         o = res[sorted(res)[0]][0]
         try:
-            lit, _ = canon(case, o)
-            b = run.vm_bad_indices("replay", HDR, "graph * observed", [lit], "(fun c => agrees (fst c) (snd c))")
-            print("model (Coq, Dag.DagModel.build) agrees with the implementation:", b == [])
+            if case["mode"] == "defs":
+                b = run.vm_bad_indices("replay", cdefs.HDR, "(list vdef * observed * list (list nat))", [cdefs.defs_literal(case, o)], "from_dict_agrees")
+                which = "Dag.FromDict.from_dict"
+            elif case["mode"] == "ctor_keys":
+                b = run.vm_bad_indices("replay", cdefs.HDR, "(list nat * graph * observed)", [cdefs.ctor_literal(case, o)], "ctor_agrees")
+                which = "Dag.FromDict.ctor"
+            else:
+                lit, _ = canon(case, o)
+                b = run.vm_bad_indices("replay", HDR, "graph * observed", [lit], "(fun c => agrees (fst c) (snd c))")
+                which = "Dag.DagModel.build"
+            print(f"model (Coq, {which}) agrees with the implementation:", b == [])
             bad = bad or b != []
         except (KeyError, ValueError) as e:
             print("result mentions a foreign name:", e)
